@@ -106,13 +106,8 @@ def _tb_only(case):
 def dump_diff(case, r0, r1):
     d0, d1 = _bits(r0), _bits(r1)
     diff = {k: [d0.get(k), d1.get(k)] for k in sorted(set(d0) | set(d1)) if d0.get(k) != d1.get(k)}
-    if diff and _tb_only(case) and set(diff) <= {"vd", "vu", "TB"}:
-        try:
-            t0, t1 = r0["vu"] / r0["vd"], r1["vu"] / r1["vd"]
-            if abs(t0 - t1) <= 1e-14 * abs(t0):
-                return {}
-        except (KeyError, ZeroDivisionError):
-            pass
+    # (until fix F-23 a 1-ulp difference of vd, vu was tolerated for permuted GM2CalcInput entries: tan(beta) was
+    # converted with the alpha(MZ) in force when entry 3 was read; it is now applied after the block has been read)
     return diff
 
 
